@@ -99,10 +99,12 @@ class LcdModel {
     if (r.lcd_count < 16) r.lcds[r.lcd_count++] = this;
     r.lcd_dump_fn = &LcdModel::dump_thunk;
   }
+  bool abstract_layout() const { return cols_ * rows_ > 80 || (rows_ > 2 && cols_ > 20) || cols_ > 40; }
   int row_offset(int r) const {
-    // Geometries that do not fit one HD44780 (more than 80 cells, e.g. 40x4) get an abstract layout:
+    // Geometries that do not fit one HD44780 (more than 80 cells, e.g. 40x4, or more than two rows of more
+    // than 20 cells, e.g. 26x3: rows 2/3 share a 40-cell DDRAM line with rows 0/1) get an abstract layout:
     // every row has its own 64-byte stripe, so rows cannot alias.
-    if (cols_ * rows_ > 80) return (r & 3) * 64;
+    if (abstract_layout()) return (r & 3) * 64;
     switch (r) {
       case 0: return 0x00;
       case 1: return 0x40;
@@ -116,7 +118,7 @@ class LcdModel {
   }
   void put(char c) {
     ddram_[addr_ & 0xff] = c;
-    if (cols_ * rows_ > 80) { addr_ = (addr_ + 1) & 0xff; return; }
+    if (abstract_layout()) { addr_ = (addr_ + 1) & 0xff; return; }
     // HD44780 two-line address counter: 0x00-0x27 then 0x40-0x67
     if (addr_ == 0x27) addr_ = 0x40;
     else if (addr_ == 0x67) addr_ = 0x00;
